@@ -3548,7 +3548,14 @@ static void generate_function_implementations(StringBuilder *sb, ASTNode *progra
 
             /* Function body */
             g_current_function = item;  /* Set context for union construction in returns */
+            g_fn_value_count = 0;
+            for (int j = 0; j < item->as.function.param_count; j++) {
+                if (item->as.function.params[j].type == TYPE_FUNCTION) {
+                    fn_value_declare(item->as.function.params[j].name);
+                }
+            }
             transpile_statement(sb, item->as.function.body, 0, env, fn_registry);
+            g_fn_value_count = 0;
             g_current_function = NULL;  /* Clear context */
             sb_append(sb, "\n");
 
